@@ -28,7 +28,7 @@ def run(tier):
         if p.returncode != 0:
             raise vf.Infra("engine export failed: " + p.stderr[-2000:])
         info = json.loads(p.stdout)
-        viols, events, _ = vf.monitor_trace("ExportTrace", "ExportTrace.cfg", out, max_events=300)
+        viols, events, _ = vf.monitor_trace("ExportTrace", "ExportTrace.cfg", out, max_events=300, independent=True)
         full = [json.loads(x) for x in open(out + ".full").read().split("\n") if x]
     finally:
         vf.rm(d)
